@@ -141,3 +141,5 @@ func SlackBy(b []byte, k uint64) []byte {
 	copy(buf, b)
 	return buf[:len(b)]
 }
+
+func (r *Rand) PickString(xs []string) string { return xs[r.Intn(len(xs))] }
